@@ -2,11 +2,11 @@ package main
 
 import (
 	"fmt"
-	"strings"
 	"go/constant"
 	"go/token"
 	"go/types"
 	"math/big"
+	"strings"
 
 	"golang.org/x/tools/go/ssa"
 )
@@ -309,6 +309,11 @@ func (fr *Frame) reachCheck(st *State, ins ssa.Instruction) {
 			continue
 		}
 		fr.reachDone[key+rc.Clause.Text] = true
+		if !fr.reachDone["cover@"+key] {
+			// a gate proved on an unreachable path proves nothing
+			fr.reachDone["cover@"+key] = true
+			x.cover(st, "gate "+rc.Stmt, pos)
+		}
 		env := fr.specEnv(st)
 		env.vars = map[string]*Val{} // names denote current values at the statement
 		env.lookup = func(s *State, name string) (*Val, bool) { return fr.lookupLocal(s, name, pos) }
@@ -886,7 +891,6 @@ func (fr *Frame) execIndexAddr(st *State, in *ssa.IndexAddr) {
 		panic("IndexAddr on " + in.X.Type().String())
 	}
 }
-
 
 func (fr *Frame) execIndex(st *State, in *ssa.Index) {
 	x := fr.x
